@@ -110,6 +110,28 @@ class World:
         space.write(self.broken, {"component.xml": packages.component_xml(
             btypes, self.base)})
         self.broken_types = btypes
+        # ... and one whose only fault is a datatype name that resolves up
+        # to its last part ('zcverif_dt.fam' is a module, the function is
+        # not there): refused every time as well
+        self.broken2 = space.new_name("broken2")
+        b2 = packages.gen_component_types(rng, model, "b2", 1)
+        for c in b2[0].get("children") or []:
+            if c["kind"] in ("key", "multikey"):
+                c["datatype"] = rng.choice([
+                    "zcverif_dt.fam.nosuchfunc", "zcverif_dt.p1.p2.nosuch",
+                    "zcverif_dt.fam.Holder.nosuch"])
+                break
+        else:
+            b2[0]["extends"] = None
+            b2[0]["children"] = [
+                {"kind": "key", "name": "alpha",
+                 "datatype": "zcverif_dt.fam.nosuchfunc", "required": False,
+                 "handler": None, "attribute": None, "default": None,
+                 "defaults": []}]
+        space.write(self.broken2, {"component.xml": packages.component_xml(
+            b2, self.base)})
+        self.broken_types = btypes + b2
+        self.broken2_types = b2
         self.xml = family.render_xml(
             model, abstract_import=(self.base, "abstract.xml")
             if abstracts else None)
@@ -171,8 +193,10 @@ def make_step(rng, w, kind):
             tree["items"].insert(0, ["s", texts.mknode(t["name"], None,
                                                        "empty")])
     elif kind == "import-broken":
-        tree["items"].insert(0, ["raw", "%import " + w.broken])
-        t = w.broken_types[0]
+        second = getattr(w, "broken2", None) and rng.random() < 0.5
+        tree["items"].insert(0, ["raw", "%import " + (
+            w.broken2 if second else w.broken)])
+        t = w.broken2_types[0] if second else w.broken_types[0]
         if rng.random() < 0.7:
             tree["items"].append(["s", texts.mknode(
                 t["name"], rng.choice([None, "bk1"]), "empty")])
@@ -341,6 +365,7 @@ def run_case(ctx, w, steps):
     case = {"xml": w.xml, "model": w.model,
             "components": [[n, ts] for n, ts in w.components],
             "broken": [w.broken, w.broken_types],
+            "broken2": [w.broken2, w.broken2_types],
             "steps": steps}
     neutral = None
     for pr in problems:
@@ -382,6 +407,13 @@ def run_shard(ctx):
                 k = rng.randint(2, 8)
                 steps = [make_step(rng, w, rng.choice(KINDS))
                          for _ in range(k)]
+                # the very same failing load once more: what the first
+                # attempt left behind must not help the second
+                for j, st in enumerate(list(steps)):
+                    if st["kind"] in ("import-broken", "conversion",
+                                      "sectiondt") and rng.random() < 0.3:
+                        steps.insert(j + 1, copy.deepcopy(st))
+                        break
                 run_case(ctx, w, steps)
     finally:
         space.close()
@@ -413,7 +445,11 @@ def replay(ctx, case):
         if case.get("broken"):
             w.broken, w.broken_types = case["broken"]
             space.write(w.broken, {"component.xml": packages.component_xml(
-                w.broken_types, base.group(1) if base else None)})
+                w.broken_types[:2], base.group(1) if base else None)})
+        if case.get("broken2"):
+            w.broken2, w.broken2_types = case["broken2"]
+            space.write(w.broken2, {"component.xml": packages.component_xml(
+                w.broken2_types, base.group(1) if base else None)})
         import ZConfig
         w.fresh = lambda: ZConfig.loadSchemaFile(io.StringIO(w.xml))
         for pr in run_history(ctx, w, case["steps"], record=False):
